@@ -17,7 +17,7 @@ import tlcrun
 from common import *
 
 # the specification models the repaired tree (see findings/known_findings.jsonl)
-FLAGS = dict(Transitive=True, TopoSort=True, ExitFix=True, OrderedAuto=True,
+FLAGS = dict(Transitive=True, TopoSort=True, ExitFix=True, SelfFix=True, OrderedAuto=True,
              OrderedTopo=True, LoopFix=True, EndFix=True, AutoFaultFix=True)
 
 FORMULAS = {
@@ -47,22 +47,22 @@ INVARIANTS = {
 # (mode, cases, calls-per-case, veto probability) per property and tier
 PLANS = {
     "quick": {
-        "C01": [("s2", 600, 4, 0.4), ("rnd", 500, 5, 0.4)],
+        "C01": [("s2", 600, 4, 0.4), ("rnd", 500, 5, 0.4), ("auto", 250, 5, 0.5)],
         "C02": [("s2", 600, 3, 0.0), ("rnd", 900, 4, 0.2), ("chain", 40, 3, 0.0), ("auto", 300, 5, 0.5)],
         "C03": [("s2", 600, 4, 0.7), ("rnd", 500, 4, 0.7)],
         "C05": [("s2after", 500, 3, 0.5), ("rnd", 500, 4, 0.5), ("dag", 500, 4, 0.3), ("auto", 400, 5, 0.5)],
         "C07": [("s2", 600, 4, 0.6), ("rnd", 500, 5, 0.6), ("auto", 600, 5, 0.5)],
         "C11": [],
-        "C14": [("s2", 600, 4, 0.5), ("rnd", 500, 5, 0.5)],
+        "C14": [("s2", 600, 4, 0.5), ("rnd", 500, 5, 0.5), ("auto", 400, 5, 0.5)],
     },
     "thorough": {
-        "C01": [("s2", 1024, 8, 0.4), ("s2after", 4096, 5, 0.4), ("rnd", 12000, 8, 0.4)],
+        "C01": [("s2", 1024, 8, 0.4), ("s2after", 4096, 5, 0.4), ("rnd", 12000, 8, 0.4), ("auto", 6000, 6, 0.5)],
         "C02": [("s2", 1024, 6, 0.0), ("rnd", 30000, 5, 0.2), ("chain", 200, 3, 0.0), ("auto", 8000, 6, 0.5)],
         "C03": [("s2", 1024, 8, 0.7), ("s2after", 4096, 4, 0.7), ("rnd", 12000, 6, 0.7)],
         "C05": [("s2after", 4096, 6, 0.5), ("rnd", 16000, 6, 0.5), ("dag", 12000, 6, 0.3), ("auto", 8000, 6, 0.5)],
         "C07": [("s2", 1024, 8, 0.6), ("s2after", 4096, 5, 0.6), ("rnd", 12000, 8, 0.6), ("auto", 12000, 6, 0.5)],
         "C11": [],
-        "C14": [("s2", 1024, 8, 0.5), ("s2after", 4096, 5, 0.5), ("rnd", 12000, 8, 0.5)],
+        "C14": [("s2", 1024, 8, 0.5), ("s2after", 4096, 5, 0.5), ("rnd", 12000, 8, 0.5), ("auto", 8000, 6, 0.5)],
     },
 }
 
